@@ -1,6 +1,7 @@
 """C03 Actions run as the unique bottom-up derivation; sugar yields documented values."""
 import common
 import lrcommon
+from props import c01_desugar
 
 LEVEL = "proof"
 
@@ -9,6 +10,9 @@ def run(r):
     r.require_theorems(1)
     r.run_witnesses()
     lrcommon.run_lr(r, "C03", also=())
+    # sugar_values is stated about the model of the desugaring; a sentence of the documented language that the grammar the
+    # front end built does not generate (or the other way round) is a sentence whose action tree cannot be its derivation tree
+    c01_desugar.run_desugar(r)
     r.assumptions += [
         "per generated grammar the theorem quantifies over all token sequences; the space of grammars is sampled by the generator",
         "the item-set certificate and the grammar come from an in-process run of the real front end + ConstructLALR; the arrays from the file the real generator wrote",
